@@ -246,6 +246,13 @@ def tree_bandit_hooks(name):
         S["ledger"] = {}
         S["dt"] = {}            # HCT/VHCT: delta-tilde each visited node's U was last computed with
         S["rounds"] = 0
+        # the root is always split once at construction (whatever the truncation depth / thresholds)
+        root = ctx["part"].get_root()
+        kids = root.get_children()
+        if not kids:
+            ctx["case"].fail("C06", "root-not-split", "after construction the root has no children", step="init", algo=name)
+        elif ctx["part"].get_depth() != 1 or any(k.get_children() is not None for k in kids):
+            ctx["case"].fail("C06", "initial-tree", f"after construction the tree has depth {ctx['part'].get_depth()} (one split of the root expected)", step="init", algo=name)
 
     def c1(ctx):
         p = params(ctx)
@@ -1125,9 +1132,11 @@ def vroom_hooks():
         S["path"] = list(a.update_list)
         if last is None or not is_ancestor_or_self(drawn, last):
             case.fail("C13", "point-not-from-descendant", "the sampled cell is not a descendant of the drawn cell", step=t, algo=name); return
-        want = max(drawn.get_depth(), a.h_max)
+        pp = S["params"]
+        cap = min(pp["h_max"], pp["n"])            # the documented cap: h_max, bounded by the budget n (from the arguments)
+        want = max(drawn.get_depth(), cap)
         if last.get_depth() != want:
-            case.fail("C13", "descent-depth", f"sampled at depth {last.get_depth()}, drawn depth {drawn.get_depth()}, cap {a.h_max}", step=t, algo=name)
+            case.fail("C13", "descent-depth", f"sampled at depth {last.get_depth()}, drawn depth {drawn.get_depth()}, cap {cap}", step=t, algo=name)
         for x, (lo, hi) in zip(pt, drawn.get_domain()):
             if not (lo <= x <= hi):
                 case.fail("C13", "point-outside-drawn-cell", f"{pt} not in {drawn.get_domain()}", step=t, algo=name); break
